@@ -9,7 +9,7 @@ import StraxModel.Model.FS
   chunks   `-` or `/`-separated `start;stop;rows`            (rows as everywhere: `t:e:id,…` or `-`)
   attempt  `variant|recheck|rmorder|fault|extraStart|extraChunks|abandoned|lostClose|show`
            lostClose 1 = threaded processor as it is (an exception of the final close is not reported, the behaviour before the D26 fix)
-           variant ser|exe|frk, protocol 1 (current) | 0 (before the D3 fix) | 2 (before the D12 fix), rmorder li|mf|ml,
+           variant ser|exe|frk, protocol 1 (current) | 0 (before the D3 fix) | 2 (before the D12 fix) | 3 (before the D35 fix), rmorder li|mf|ml,
            fault `none` | `+`-separated list of `exc@k` | `db@k` | `da@k` (k-th FS operation of the attempt) | `ab@k` (exception
            thrown in after k ops) | `sk@k` (the thread that would issue operation k fails without issuing it)
   report   `<result> find=<ok|err Kind> load=<ok chunks|err Kind> d12=<0|1> ops=<op,op,…>`
@@ -31,9 +31,11 @@ def c04Chunks (s : String) : Option (List Chunk) :=
 def c04Variant : String → Option Variant
   | "ser" => some .serial | "exe" => some .executor | "frk" => some .forked | _ => none
 
-/-- `1` current protocol, `0` before the D3 fix (futures unchecked), `2` before the D12 fix (broken data deleted in place) -/
+/-- `1` current protocol, `0` before the D3 fix (futures unchecked), `2` before the D12 fix (broken data deleted in place),
+`3` before the D35 fix (cleanup of inlined savers only waited) -/
 def c04Proto : String → Option Proto
-  | "1" => some {} | "0" => some { recheck := false } | "2" => some { atomicRemove := false } | _ => none
+  | "1" => some {} | "0" => some { recheck := false } | "2" => some { atomicRemove := false }
+  | "3" => some { cleanupChecks := false } | _ => none
 
 def c04RmOrder : String → Option RmOrder
   | "li" => some .sorted | "mf" => some .metaFirst | "ml" => some .metaLast | _ => none
